@@ -347,6 +347,11 @@ def install(it):
         m.ns['abc'] = it.import_module('collections.abc')
         return m
 
+    @module('itertools')
+    def _itertools(it):
+        # everything comes from pyvc/prelude/itertools.py
+        return I.ModuleVal('itertools')
+
 
 # --------------------------------------------------------------------------
 # re
